@@ -178,6 +178,13 @@ class ZTable:
             check_index(i, self.nrows, self.name)
             self.cols[int(k)] = z3.Store(self.cols[int(k)], zint(i), zint(v))
             return
+        if isinstance(v, ZRow) and len(v.tbl.cols) == len(self.cols):
+            # tbl[i] = tbl2[j]: numpy copies the row (the right-hand side is read before the store)
+            check_index(idx, self.nrows, self.name)
+            vals = [z3.Select(c, zint(v.i)) for c in v.tbl.cols]
+            for k, val in enumerate(vals):
+                self.cols[k] = z3.Store(self.cols[k], zint(idx), val)
+            return
         raise Unsupported("row store into a symbolic table")
 
     def col(self, k):
